@@ -160,7 +160,7 @@ def LInv (l : LState ρ) : Prop := l.pc ≠ .exited → l.core.stopped = false
 theorem LInv_init (st : Settings) (ans : List Bool) : LInv (linit st ans : LState ρ) := fun _ => rfl
 
 section
-variable (v : Variant) (Z : Zip) (C : Codec ρ) (hr : v.resetOnError = true)
+variable (v : Variant) (Z : Zip) (C : Codec ρ) (hr : v.sound = true)
 include hr
 
 /-- one machine action = the model run on its abstraction -/
@@ -295,7 +295,7 @@ where
 
 /-- the idle timeout: the loop at its `select`, nothing queued, no producer active —
     `GetTimeout` runs out of polls and the batch is flushed -/
-theorem idle_timeout_flushes (hr : v.resetOnError = true) (l : LState ρ) (k : Nat) (hpc : l.pc = .top)
+theorem idle_timeout_flushes (hr : v.sound = true) (l : LState ρ) (k : Nat) (hpc : l.pc = .top)
     (hc : l.cancelled = false) (hq : l.core.queue = []) :
     (lrun v Z C l (.select k :: List.replicate (k + 1) .poll)).1.core.bufLen = 0 ∧
     (lrun v Z C l (.select k :: List.replicate (k + 1) .poll)).1.pc = .top := by
@@ -318,7 +318,7 @@ theorem idle_timeout_flushes (hr : v.resetOnError = true) (l : LState ρ) (k : N
     exact ih _ hq1 rfl
 
 /-- cancellation: at the next `select` the loop drains, flushes and returns -/
-theorem cancel_exits (hr : v.resetOnError = true) (hv : v.drainOnStop = true) (l : LState ρ) (k : Nat)
+theorem cancel_exits (hr : v.sound = true) (hv : v.drainOnStop = true) (l : LState ρ) (k : Nat)
     (hi : LInv l) (hpc : l.pc = .top) (hc : l.cancelled = true) :
     let l' := (lstep v Z C l (.select k)).1
     l'.pc = .exited ∧ l'.core.queue = [] ∧ l'.core.bufLen = 0 ∧ l'.core.stopped = true := by
